@@ -53,12 +53,16 @@ def main() -> int:
     import fingerprint
     edited = fingerprint.changed_anchors(prop, common.REPO)
     ctx.extra["anchor_files_edited_since_last_validation"] = edited
+    # Two-stage search: the normal campaign first; only if it found no failing input AND something says the code may have
+    # changed behaviour (anchor files edited, a proof obligation / tie / translator section broken, or model ≠ implementation)
+    # the campaign is run again with a raised budget (intensified failing-input search, same seed stream continues).
+    intensify = 0.0
     if edited:
-        print(f"ANCHOR-EDITED {prop}: {', '.join(edited)} (not an alarm: search budget raised)")
-        ctx.budget = 3.0
+        print(f"ANCHOR-EDITED {prop}: {', '.join(edited)} (not an alarm: the search is intensified if the normal campaign finds nothing)")
+        intensify = 3.0
     if not st.proof_ok:
         print(f"PROOF-BROKEN {prop}: {st.summary()}")
-        ctx.budget = 6.0   # intensified failing-input search
+        intensify = 5.0
     if ctx.thorough and st.proof_ok and not a.no_lean:
         ok, log = common.leanchecker([f"PytaskProofs.Properties.{prop}"])
         ctx.extra["leanchecker"] = "ok" if ok else log
@@ -69,12 +73,16 @@ def main() -> int:
     # 4-5: known-finding witnesses + campaign
     try:
         mod.run(ctx)
-        if ctx.disagreements and not ctx.violations and ctx.budget < 6.0:
+        known_ids = {e["id"] for e in common.load_known(prop) if e.get("status") == "known"}
+        fresh_now = [v for v in ctx.violations if not (v["finding"] and v["finding"] in known_ids)]
+        if ctx.disagreements and not fresh_now:
             print(f"CORRESPONDENCE-BROKEN {prop}: {ctx.disagreements[0]['what']}")
-            ctx.budget = 6.0
-            ctx.use_model_saved = ctx.use_model
+            intensify = max(intensify, 5.0)
+        if intensify and not fresh_now:
+            ctx.budget = intensify
+            ctx.extra["intensified_search_budget"] = intensify
             first = list(ctx.disagreements)
-            mod.run(ctx)   # intensified search (same seed stream continues)
+            mod.run(ctx)   # intensified search
             ctx.disagreements = first + ctx.disagreements[len(first):]
     except common.InfraError as e:  # type: ignore[attr-defined]
         print(f"INFRA: {e}")
